@@ -20,6 +20,39 @@ NO_HANDLE = {'sf_open', 'sf_open_fd', 'sf_open_virtual', 'sf_error_number', 'sf_
 RETURNS_CODE = {'sf_set_chunk', 'sf_get_chunk_size', 'sf_get_chunk_data', 'sf_error_str', 'sf_set_string', 'sf_close', 'sf_perror'}
 
 
+def reject_before_mutate(ctx, prog, rule='REJECT-FIRST'):
+    """in a setter that reports failure by a non-zero SFE_* return value, no failing return may be reachable after a store into handle state"""
+    ctx.rule(rule, 'psf_store_string (the worker behind sf_set_string): every return of a non-zero SFE_* code is unreachable from any store into psf->strings.* (validation precedes mutation, so a rejected '
+             'call leaves the stored metadata unchanged)', floor=5)
+    from engine.effects import writes_of as _w, lvalue_root as _r
+    for name, file in (('psf_store_string', 'strings.c'),):
+        f = prog.fn(name, file)
+        stores = []
+        for lhs, n, kind in _w(f):
+            root = _r(f, lhs)
+            ls = f.s(lhs)
+            if root['k'] == 'DeclRefExpr' and root['n'] == 'psf' and not ls.endswith('->error'):
+                stores.append(n)
+        k = 0
+        for r in f.cfg.returns():
+            if not r['kids']:
+                continue
+            e = f.unwrap(f.N[r['kids'][0]])
+            if e.get('v') in (None, 0):
+                continue
+            k += 1
+            rp = f.cfg.point(r)
+            bad = []
+            for st in stores:
+                sp = f.cfg.point(st)
+                if sp is None or rp is None:
+                    continue
+                if (sp[0] == rp[0] and sp[1] < rp[1]) or f.cfg.path_avoiding(sp, {rp[0]}, set()) is not None:
+                    bad.append(st)
+            ctx.ob(rule, '%s:return %s' % (name, f.s(e)), not bad, f.loc(r), 'rejection %s %s' % (f.s(e), 'happens before any store into the handle' if not bad else
+                   'is reachable AFTER the handle was already modified at %s: a rejected call changes the stored metadata' % [f.loc(x) for x in bad[:3]]), None)
+
+
 def wrapper_rule(ctx, prog):
     # ------------------------------------------------------------------ WRAPPER
     ctx.rule('WRAPPER', 'within each family (read items, read frames, write items, write frames) the four typed wrappers have identical normalised fact sheets (ordered guards, '
@@ -225,6 +258,9 @@ def run(ctx):
                 if rhs not in ('SFE_BAD_FILE_PTR', 'SFE_BAD_SNDFILE_PTR'):
                     bad.append('%s = %s' % (f.s(lhs), rhs))
         ctx.ob('ERR-QUERY', name, not bad, f.loc(f.body), 'does not modify the recorded error' if not bad else 'modifies the error: %s' % bad, None)
+
+    # ------------------------------------------------------------------ REJECT-BEFORE-MUTATE
+    reject_before_mutate(ctx, prog)
 
     # ------------------------------------------------------------------ OPEN-FAIL (shared with C16)
     from rules.C16 import open_fail
